@@ -1,6 +1,6 @@
 (* C07 - Clones are faithful, self-contained and independent of the original. Property theorems only. *)
 From Coq Require Import List ZArith String.
-From SV Require Import Base.Base IR.State IR.NS IR.Ops Xform.Clone Proofs.CloneSmall Proofs.C01_full Proofs.Inv1a Proofs.Inv2a Proofs.CloneFrame Proofs.CloneStart Proofs.NsInv Proofs.InvW Proofs.UniqInv Proofs.CloneFaith Proofs.CloneFull Proofs.CloneNetInv Proofs.CloneDefStruct Proofs.CloneLibInv Proofs.CloneAnyInv Proofs.CloneData Proofs.CloneDataNet Proofs.Locality Proofs.LocalityStep Proofs.LocalityHist Proofs.LocalityClone Proofs.LocalityNet.
+From SV Require Import Base.Base IR.State IR.NS IR.Ops Xform.Clone Proofs.CloneSmall Proofs.C01_full Proofs.Inv1a Proofs.Inv2a Proofs.CloneFrame Proofs.CloneStart Proofs.NsInv Proofs.InvW Proofs.UniqInv Proofs.CloneFaith Proofs.CloneFull Proofs.CloneNetInv Proofs.CloneDefStruct Proofs.CloneLibInv Proofs.CloneAnyInv Proofs.CloneData Proofs.CloneDataNet Proofs.Locality Proofs.LocalityStep Proofs.LocalityHist Proofs.LocalityClone Proofs.LocalityOrig Proofs.LocalityNet.
 Import ListNotations.
 
 (* cloning a wire: one fresh element, no pins listed, nothing else changes *)
@@ -496,6 +496,62 @@ Proof.
   cbv zeta. split; [vm_compute; repeat split|]. split; [|vm_compute; repeat split].
   replace (next (run _ init)) with 13 by (vm_compute; reflexivity).
   repeat (constructor; [cbn; unfold copy_region; repeat split; intros; try discriminate; try (apply PeanoNat.Nat.leb_le; reflexivity)|]).
+  constructor.
+Qed.
+
+(* INDEPENDENCE, original side: the region of the original after the clone - the objects that existed
+   before the call and everything allocated after it - is closed as well, provided no reference set of an
+   old definition lists an object of the copy (norefb, a decidable condition on the state after the clone:
+   it is what the final filter of Netlist._clone_rip establishes for a closed netlist; not yet derived from
+   NetStruct, so it is a hypothesis here), and then for EVERY history of editing calls on objects of the
+   original (or created by those calls) every field of every object of the copy is unchanged. *)
+Theorem C07_netlist_clone_orig_region_closed : forall ops n,
+  let s := run ops init in
+  let sF := fst (fst (clone_netlist s n)) in
+  kind_of s n = Some KNetlist -> Closed s n -> snd (fst (clone_netlist s n)) = None ->
+  norefb (next s) (next sF) sF = true ->
+  RClosed (orig_region (next s) (next sF)) sF.
+Proof. exact netlist_clone_orig_region_closed. Qed.
+Print Assumptions C07_netlist_clone_orig_region_closed.
+
+Theorem C07_edits_of_original_never_show_in_copy : forall ops n h,
+  let s := run ops init in
+  let sF := fst (fst (clone_netlist s n)) in
+  kind_of s n = Some KNetlist -> Closed s n -> snd (fst (clone_netlist s n)) = None ->
+  norefb (next s) (next sF) sF = true ->
+  Forall (op_in (orig_region (next s) (next sF))) h ->
+  out_eq (orig_region (next s) (next sF)) sF (run h sF) /\ RClosed (orig_region (next s) (next sF)) (run h sF).
+Proof. exact netlist_clone_orig_edits_independent. Qed.
+Print Assumptions C07_edits_of_original_never_show_in_copy.
+
+(* non-vacuity, original side: the same design and clone; the ORIGINAL is edited (leaf widened by a port -
+   its instance 6 gets an outer pin, the copy's instance 24 does not -, the cable's wire disconnected, the
+   top cell renamed, a new child of the leaf created): the original changes, the copy is as the clone left it *)
+Example C07_edits_of_original_sample :
+  let ops := [ ONew KNetlist None []; OCreate RLibs 0 (Some (s2l "work"%string)) [] 0 None;
+               OCreate RDefs 1 (Some (s2l "leaf"%string)) [] 0 None; OCreate RPorts 2 (Some (s2l "A"%string)) [] 1 None;
+               OCreate RDefs 1 (Some (s2l "top"%string)) [] 0 None;
+               OCreate RChildren 5 (Some (s2l "u1"%string)) [] 0 (Some 2);
+               OCreate RCables 5 (Some (s2l "n1"%string)) [] 1 None;
+               OCreate RPorts 5 (Some (s2l "P"%string)) [] 2 None;
+               OConnect 8 (POut 6 4) None; OSetTop 0 (TopDef 5) ] in
+  let s := run ops init in
+  let sF := fst (fst (clone_netlist s 0)) in
+  let h := [ OCreate RPorts 2 (Some (s2l "B"%string)) [] 1 None; ODisconnect 8 (POut 6 4);
+             OSetName 5 (Some (s2l "top_edited"%string)); OCreate RChildren 5 (Some (s2l "u2"%string)) [] 0 (Some 2) ] in
+  (norefb (next s) (next sF) sF = true /\ next s = 13 /\ next sF = 26) /\
+  Forall (op_in (orig_region (next s) (next sF))) h /\
+  (map fst (ipins sF 6) = [4] /\ map fst (ipins (run h sF) 6) = [4; 27] /\ wpins (run h sF) 8 = [] /\
+   kids (run h sF) RChildren 5 = [6; 28] /\ drefs (run h sF) 2 = [6; 28]) /\
+  (map fst (ipins (run h sF) 24) = [17] /\ wpins (run h sF) 23 = [POut 24 17] /\ kids (run h sF) RPorts 15 = [16] /\
+   kids (run h sF) RChildren 18 = [24] /\ drefs (run h sF) 15 = [24] /\ data (run h sF) 18 = data sF 18).
+Proof.
+  cbv zeta. split; [vm_compute; repeat split|]. split; [|vm_compute; repeat split].
+  replace (next (run _ init)) with 13 by (vm_compute; reflexivity).
+  replace (next (fst (fst (clone_netlist _ 0)))) with 26 by (vm_compute; reflexivity).
+  repeat (constructor; [cbn; unfold orig_region; repeat split; intros; try discriminate;
+                        try match goal with H : Some _ = Some _ |- _ => injection H as <- end;
+                        try (left; apply PeanoNat.Nat.ltb_lt; reflexivity); try (right; apply PeanoNat.Nat.leb_le; reflexivity)|]).
   constructor.
 Qed.
 
